@@ -101,14 +101,14 @@ def nameIdentity : Bytes := [73, 100, 101, 110, 116, 105, 116, 121]             
 def keyName : Bytes := [78, 97, 109, 101]                                           -- "Name"
 def nameJBIG2 : Bytes := [74, 66, 73, 71, 50, 68, 101, 99, 111, 100, 101]           -- "JBIG2Decode"
 
-/-- element loop of `inlineFilterRefs`; a stream in element position cannot be written by
-    `Writer.Put` ("direct stream objects are not allowed") -/
+/-- element loop of `inlineFilterRefs`; a stream in element position is refused as a defect of
+    the source file -/
 def resolveElems (G : Graph) : List Obj → Except CErr (List Obj)
   | [] => .ok []
   | x :: xs =>
     match resolve G true x with
     | .error e => .error e
-    | .ok (.stream _ _ _) => .error .other
+    | .ok (.stream _ _ _) => .error .malformed
     | .ok (.obj o) =>
       match resolveElems G xs with
       | .error e => .error e
@@ -122,6 +122,7 @@ def inlineFilterRefs (G : Graph) (val : Obj) : Except CErr Val :=
     match resolveElems G xs with
     | .error e => .error e
     | .ok os => .ok (.obj (.arr os))
+  | .ok (.stream _ _ _) => .error .malformed   -- "stream object in /Filter or /DecodeParms"
   | .ok v => .ok v
 
 /-- `filterChainStartsWithCrypt` -/
